@@ -22,8 +22,8 @@ def run_batch(lib, reqs, asan=False, perturb=None, timeout_per_call=20, mem_gb=N
         env["PYTHONHASHSEED"] = "0"
         env["PYTHONPATH"] = ""
         if asan:
-            env["LD_PRELOAD"] = ASAN_LIB
-            env["ASAN_OPTIONS"] = "detect_leaks=0:abort_on_error=0:exitcode=66:allocator_may_return_null=1"
+            env["LD_PRELOAD"] = ASAN_LIB + " /usr/lib/x86_64-linux-gnu/libstdc++.so.6"   # libstdc++ so that ASan can intercept __cxa_throw
+            env["ASAN_OPTIONS"] = "detect_leaks=0:abort_on_error=0:exitcode=66:allocator_may_return_null=1:max_allocation_size_mb=3072"
         if perturb is not None:
             env["MALLOC_PERTURB_"] = str(perturb)
 
